@@ -155,3 +155,66 @@ def float_conserving_dag(rng):
         if ok and any(x != int(x * 8) / 8 for _, _, x in H.edges(data="flow")):
             return H, k
     return float_conserving_dag(rng)
+
+
+def mimic_names(rng, G, p=1.0):
+    """Copy of G (same node / edge insertion order, same attributes) whose node names MIMIC names that the library derives
+    internally, so that a helper which builds auxiliary nodes in the caller's name space collides with them:
+      z<k> / z<k>_ / z<id-like digits><k>   (graphutils.min_cost_flow: "z" + str(id(G)) + counter),
+      source_<digits> / sink_<digits>        (AbstractSourceSinkGraph),
+      <v>.0 / <v>.1                          (NodeExpandedDiGraph),
+      <k> / <k>_expanded                     (stDiGraph condensation: str(int), str(int) + "_expanded"),
+      numeric-looking strings, the empty-ish and white-space free oddities.
+    With probability 1-p the graph is returned unchanged.  Names stay distinct strings."""
+    if rng.random() >= p:
+        return G
+    nodes = list(G.nodes()); m = max(2, 2 * G.number_of_edges() + 2 * len(nodes) + 4)
+    fam = rng.choice(["z", "z", "z_mixed", "st", "dot", "cond", "num", "mixed", "mixed"])
+    def draw(f, v):
+        k = rng.randint(1, m)
+        if f == "z": return "z" + str(k)
+        if f == "z_mixed": return rng.choice(["z" + str(k), "z" + str(k) + "_", "z0" + str(k), "Z" + str(k), "z" + str(rng.randint(10 ** 14, 10 ** 15)) + str(k)])
+        if f == "st": return rng.choice(["source_", "sink_"]) + str(rng.choice([k, 0, rng.randint(10 ** 14, 10 ** 15)]))
+        if f == "dot": return rng.choice([str(v), "v" + str(k), str(k)]) + rng.choice([".0", ".1"])
+        if f == "cond": return rng.choice([str(k - 1), str(k - 1) + "_expanded"])
+        if f == "num": return rng.choice([str(k), str(-k), "0" + str(k), str(k) + ".5", "1e" + str(k % 5)])
+        return draw(rng.choice(["z", "z_mixed", "st", "dot", "cond", "num"]), v)
+    ren = {}; used = set()
+    for v in nodes:
+        for _ in range(50):
+            name = draw(fam, v)
+            if name not in used: break
+        else:
+            name = str(v) + "_" + str(len(used))
+        ren[v] = name; used.add(name)
+    H = nx.DiGraph(); H.graph.update(G.graph)
+    for v in nodes: H.add_node(ren[v], **G.nodes[v])
+    for u, v, d in G.edges(data=True): H.add_edge(ren[u], ren[v], **d)
+    return H
+
+
+def rand_digraph_free(rng, nmax=6):
+    """Digraph for the s-t classes WITHOUT the guarantee that every node lies on a source-to-sink walk: a random DAG or
+    cyclic skeleton plus, with high probability, a strongly connected part that nothing enters from outside (a cycle or
+    self-loop that only feeds into the rest: NOT reachable from any source) and / or one that nothing leaves (does not
+    reach any sink).  Has at least one in-degree-0 and one out-degree-0 node."""
+    K = rand_cyclic(rng, nmax=nmax) if rng.random() < 0.5 else rand_dag(rng, nmax=nmax)
+    G = nx.DiGraph(); G.add_nodes_from(K.nodes()); G.add_edges_from(K.edges())
+    base = list(G.nodes())
+    def gadget(tag):
+        k = rng.choice([1, 2, 2, 3]); ns = [f"{tag}{i}" for i in range(k)]
+        if k == 1: G.add_edge(ns[0], ns[0])
+        else:
+            for i in range(k): G.add_edge(ns[i], ns[(i + 1) % k])
+        return ns
+    r = rng.random()
+    if r < 0.75:
+        ns = gadget("x")                               # source-less closed SCC feeding in
+        for _ in range(rng.choice([1, 1, 2])): G.add_edge(rng.choice(ns), rng.choice(base))
+    if r > 0.35:
+        ns2 = gadget("y")                              # sink-less closed SCC fed from the rest
+        for _ in range(rng.choice([1, 1, 2])): G.add_edge(rng.choice(base), rng.choice(ns2))
+        if r < 0.75 and rng.random() < 0.3: G.add_edge(rng.choice(ns), rng.choice(ns2))
+    es = list(G.edges()); rng.shuffle(es)
+    H = nx.DiGraph(); H.add_edges_from(es)
+    return H
